@@ -1260,9 +1260,16 @@ func (g *evGen) withControl() {
 					cls += "/removed-node"
 				case y < 44 && len(peers) > 0:
 					i := r.Intn(len(peers))
-					peers[i].addr, peers[i].rpc = nextAddr, nextAddr
+					if r.Intn(5) < 2 {
+						// only the node-to-node address changes, the client-facing address stays (fixed rpc_address, NAT,
+						// address translation): the connect address the pool and the policies know the node by is unchanged
+						peers[i].addr = nextAddr
+						cls += "/node-address-change-rpc-unchanged"
+					} else {
+						peers[i].addr, peers[i].rpc = nextAddr, nextAddr
+						cls += "/address-change"
+					}
 					nextAddr++
-					cls += "/address-change"
 				case y < 49 && len(peers) > 1:
 					// two nodes exchange their addresses
 					i := r.Intn(len(peers))
